@@ -1,85 +1,160 @@
 ----------------------------- MODULE ValueSets -----------------------------
 (* Value sets of vc2_conformance/constraint_table.py (property C17, first sentence).       *)
 (*                                                                                         *)
-(* Two value-set objects A and B are built by histories of the public operations           *)
-(* (add_value, add_range with lo <= hi, + with the other object, replacement by the      *)
-(* AnyValue wildcard).  Each object is modelled twice: rep follows the code's            *)
-(* representation and merge algorithm (ValueSetsOps Rep.. operators), den is the plain set the      *)
-(* property speaks of (union of everything listed).  TLC checks that the algorithm         *)
-(* denotes the union, that the end-point based is_disjoint equals emptiness of the         *)
-(* intersection, and that the representation stays canonical.  Inverted ranges (lo > hi)   *)
-(* are not "inclusive ranges" and are not generated (see DESIGN C17).                      *)
+(* Value sets are OBJECTS with identity.  Two program variables A and B each name an       *)
+(* object of a heap; the public operations are applied through the variables:              *)
+(*   add_value / add_range (lo <= hi)  mutate the object the variable names, in place;   *)
+(*   union  (dst = l + r, any choice of dst, l, r among the variables, l = r included)    *)
+(*          allocates a FRESH object and rebinds dst to it;                                *)
+(*   any    rebinds the variable to a fresh AnyValue wildcard;                             *)
+(*   new    rebinds the variable to a fresh ValueSet(*items) (items from CtorItems).       *)
+(* Each set is modelled twice.  heap[o].rep follows the code's representation and merge  *)
+(* algorithm (ValueSetsOps Rep.. operators) and has reference semantics (an object is      *)
+(* changed through whatever names it).  den[x] is the plain set the property speaks of --  *)
+(* "the union of the listed values and inclusive ranges" of the set variable x names -- and  *)
+(* has value semantics: it is changed only by operations applied to x.  TLC checks that    *)
+(* the two agree after any sequence of additions and unions (ContainsExactlyUnion), which  *)
+(* requires that no operation makes two variables share state (NoSharing) and that an      *)
+(* operation leaves every object other than the one it is applied to untouched             *)
+(* (OthersUnchanged); further that the end-point based is_disjoint equals emptiness of the *)
+(* intersection, and that the representation stays canonical.  Every object remembers how  *)
+(* it was created (org), which is part of the VIEW: the transitions out of "x names the    *)
+(* result of l + r" are enumerated (and replayed on the real code) separately from those   *)
+(* out of an equal set built by additions, for every shape of the operands.                *)
+(*                                                                                         *)
+(* UnionImpl = "fresh" is the model of the code.  The other values describe unions that    *)
+(* hand out one of their operands instead of a new object; they exist so that TLC          *)
+(* demonstrates on every run that the invariants above reject such an implementation       *)
+(* (mc/ValueSetsShare.cfg, expected to be violated).                                       *)
+(* Inverted ranges (lo > hi) are not "inclusive ranges" and are not generated.             *)
 EXTENDS ValueSetsOps, TLC
 
-CONSTANTS N,        \* values and range bounds are drawn from 0..N-1
-          MaxLen    \* history length
+CONSTANTS N,         \* values and range bounds are drawn from 0..N-1
+          MaxLen,    \* history length
+          UnionImpl, \* "fresh" | "reuse_right" | "reuse_left" | "reuse_superset"
+          Ctor       \* BOOLEAN: also the constructor with the argument lists CtorItems
 
 U    == 0..(N - 1)
 Wide == (0 - 2)..(N + 1)          \* membership is projected on a slightly larger universe
 Regs == {"A", "B"}
-Other(x) == IF x = "A" THEN "B" ELSE "A"
+Top  == N - 1
 
-VARIABLES rep,   \* [Regs -> representation]
+\* argument lists of ValueSet(...): several values / ranges at once, overlapping and chained
+CtorItems == IF Ctor
+             THEN { <<>>,
+                    << <<"v", 1, 1>> >>,
+                    << <<"r", 1, 2>> >>,
+                    << <<"v", 0, 0>>, <<"r", 2, Top>> >>,
+                    << <<"r", 0, 1>>, <<"r", Top, Top>>, <<"v", 1, 1>> >>,
+                    << <<"r", 2, 2>>, <<"r", 0, 0>>, <<"r", 1, Top>> >> }
+             ELSE {}
+
+VARIABLES ref,   \* [Regs -> object id]: the object each variable names
+          heap,  \* sequence of all objects ever allocated: [rep, org]; object id = index
+          den,   \* [Regs -> denotation]   (ghost: the property's set, value semantics)
           obs,   \* what the driver must observe on the real objects after the last operation
-          den,   \* [Regs -> denotation]          (ghost: the property's set)
-          pre,   \* rep before the last operation (VIEW: one state per abstract transition)
+          pre,   \* [ref, heap] before the last operation (VIEW: one state per abstract transition)
           inp,   \* the last operation
           hist   \* history of operations leading here (not in VIEW: shortest one is dumped)
 
-vars == <<rep, den, obs, pre, inp, hist>>
+vars == <<ref, heap, den, obs, pre, inp, hist>>
+
+NoReg == "-"
+Obj(r, how, l, rr) == [rep |-> r, org |-> <<how, l, rr>>]
 
 Ops ==      [op : {"add_value"}, reg : Regs, v : U]
-       \cup {[op |-> "add_range", reg |-> x, lo |-> l, hi |-> h] : x \in Regs, l \in U, h \in U} 
-       \cup [op : {"union", "any"}, reg : Regs]
+       \cup {[op |-> "add_range", reg |-> x, lo |-> l, hi |-> h] : x \in Regs, l \in U, h \in U}
+       \cup [op : {"union"}, reg : Regs, l : Regs, r : Regs]
+       \cup [op : {"any"}, reg : Regs]
+       \cup [op : {"new"}, reg : Regs, items : CtorItems]
 
 Legal(o) == o.op = "add_range" => o.lo <= o.hi
 
-RepPost(r, o) ==
-  CASE o.op = "add_value" -> [r EXCEPT ![o.reg] = RepAddValue(@, o.v)]
-    [] o.op = "add_range" -> [r EXCEPT ![o.reg] = RepAddRange(@, o.lo, o.hi)]
-    [] o.op = "union"     -> [r EXCEPT ![o.reg] = RepUnion(@, r[Other(o.reg)])]
-    [] o.op = "any"       -> [r EXCEPT ![o.reg] = AnyRep]
+RepAt(rf, hp, x) == hp[rf[x]].rep
+IsEmptyRep(r) == ~r.any /\ r.vals = {} /\ r.rngs = {}
+Covers(a, b)  == ~a.any /\ ~b.any /\ DenoteIn(b, Wide) \subseteq DenoteIn(a, Wide)
 
+\* the object (id) a deliberately wrong union hands out instead of a new one; 0 = allocate
+Reused(rf, hp, o) ==
+  LET a == RepAt(rf, hp, o.l)
+      b == RepAt(rf, hp, o.r)
+  IN CASE UnionImpl = "reuse_right"    -> IF IsEmptyRep(a) /\ ~b.any THEN rf[o.r] ELSE 0
+       [] UnionImpl = "reuse_left"     -> IF IsEmptyRep(b) /\ ~a.any THEN rf[o.l] ELSE 0
+       [] UnionImpl = "reuse_superset" -> IF Covers(a, b) THEN rf[o.l] ELSE IF Covers(b, a) THEN rf[o.r] ELSE 0
+       [] OTHER                        -> 0
+
+Alloc(rf, hp, x, obj) == [ref |-> [rf EXCEPT ![x] = Len(hp) + 1], heap |-> Append(hp, obj)]
+
+\* reference semantics: [ref, heap] after operation o
+HeapPost(rf, hp, o) ==
+  CASE o.op = "add_value" -> [ref |-> rf, heap |-> [hp EXCEPT ![rf[o.reg]].rep = RepAddValue(@, o.v)]]
+    [] o.op = "add_range" -> [ref |-> rf, heap |-> [hp EXCEPT ![rf[o.reg]].rep = RepAddRange(@, o.lo, o.hi)]]
+    [] o.op = "union"     -> IF Reused(rf, hp, o) # 0
+                             THEN [ref |-> [rf EXCEPT ![o.reg] = Reused(rf, hp, o)], heap |-> hp]
+                             ELSE Alloc(rf, hp, o.reg, Obj(RepUnion(RepAt(rf, hp, o.l), RepAt(rf, hp, o.r)), "union", o.l, o.r))
+    [] o.op = "any"       -> Alloc(rf, hp, o.reg, Obj(AnyRep, "any", NoReg, NoReg))
+    [] o.op = "new"       -> Alloc(rf, hp, o.reg, Obj(RepOfItems(EmptyRep, o.items), "new", NoReg, NoReg))
+
+\* value semantics: the set the property assigns to each variable after operation o
 DenPost(d, o) ==
   CASE o.op = "add_value" -> [d EXCEPT ![o.reg] = DenAddValue(@, o.v)]
     [] o.op = "add_range" -> [d EXCEPT ![o.reg] = DenAddRange(@, o.lo, o.hi)]
-    [] o.op = "union"     -> [d EXCEPT ![o.reg] = DenUnion(@, d[Other(o.reg)])]
+    [] o.op = "union"     -> [d EXCEPT ![o.reg] = DenUnion(d[o.l], d[o.r])]
     [] o.op = "any"       -> [d EXCEPT ![o.reg] = AnyDen]
+    [] o.op = "new"       -> [d EXCEPT ![o.reg] = DenOfItems(EmptyDen, o.items)]
 
 (* what the driver observes on the real objects after a step, as predicted by the spec *)
-Obs(r, d) == [ma |-> DenIn(d["A"], Wide), mb |-> DenIn(d["B"], Wide),
-              dj |-> DenDisjoint(d["A"], d["B"]),
-              anya |-> d["A"].any, anyb |-> d["B"].any,
-              va |-> r["A"].vals, ra |-> r["A"].rngs, vb |-> r["B"].vals, rb |-> r["B"].rngs]
+Obs(rf, hp, d) ==
+  [ma |-> DenIn(d["A"], Wide), mb |-> DenIn(d["B"], Wide),
+   dj |-> DenDisjoint(d["A"], d["B"]),
+   anya |-> d["A"].any, anyb |-> d["B"].any,
+   same |-> rf["A"] = rf["B"],
+   va |-> RepAt(rf, hp, "A").vals, ra |-> RepAt(rf, hp, "A").rngs,
+   vb |-> RepAt(rf, hp, "B").vals, rb |-> RepAt(rf, hp, "B").rngs]
 
-Init == /\ rep = [x \in Regs |-> EmptyRep] /\ den = [x \in Regs |-> EmptyDen]
-        /\ obs = Obs(rep, den)
-        /\ pre = [x \in Regs |-> EmptyRep] /\ inp = [op |-> "init"] /\ hist = <<>>
+Init == /\ ref = [x \in Regs |-> IF x = "A" THEN 1 ELSE 2]
+        /\ heap = <<Obj(EmptyRep, "new", NoReg, NoReg), Obj(EmptyRep, "new", NoReg, NoReg)>>
+        /\ den = [x \in Regs |-> EmptyDen]
+        /\ obs = Obs(ref, heap, den)
+        /\ pre = [ref |-> ref, heap |-> heap] /\ inp = [op |-> "init"] /\ hist = <<>>
 
 Do(o) == /\ Len(hist) < MaxLen
          /\ Legal(o)
-         /\ rep' = RepPost(rep, o)
+         /\ LET p == HeapPost(ref, heap, o) IN ref' = p.ref /\ heap' = p.heap
          /\ den' = DenPost(den, o)
-         /\ pre' = rep /\ inp' = o
-         /\ obs' = Obs(rep', den')
+         /\ pre' = [ref |-> ref, heap |-> heap] /\ inp' = o
+         /\ obs' = Obs(ref', heap', den')
          /\ hist' = Append(hist, o)
 
 AddValue == \E o \in Ops : o.op = "add_value" /\ Do(o)
 AddRange == \E o \in Ops : o.op = "add_range" /\ Do(o)
 Union    == \E o \in Ops : o.op = "union" /\ Do(o)
 MakeAny  == \E o \in Ops : o.op = "any" /\ Do(o)
-Next == AddValue \/ AddRange \/ Union \/ MakeAny
+New      == \E o \in Ops : o.op = "new" /\ Do(o)
+Next == AddValue \/ AddRange \/ Union \/ MakeAny \/ New
 
 Spec == Init /\ [][Next]_vars
 
 (* --- C17, first sentence ---------------------------------------------------------------- *)
-\* the merge algorithm contains exactly the union of the listed values and inclusive ranges
-ContainsExactlyUnion == \A x \in Regs : /\ rep[x].any = den[x].any
-                                         /\ DenoteIn(rep[x], Wide) = DenIn(den[x], Wide)
+\* after ANY sequence of additions and unions, the set a variable names contains exactly the
+\* union of the values and inclusive ranges listed for it (and nothing listed for another set)
+ContainsExactlyUnion == \A x \in Regs : /\ RepAt(ref, heap, x).any = den[x].any
+                                         /\ DenoteIn(RepAt(ref, heap, x), Wide) = DenIn(den[x], Wide)
+\* ... which needs: no operation of the library makes two variables name the same object,
+NoSharing == \A x, y \in Regs : x # y => ref[x] # ref[y]
+\* and an operation changes no object but the one it is applied to (operands of a union included)
+OthersUnchanged == inp.op # "init" =>
+  LET tgt == IF inp.op \in {"add_value", "add_range"} THEN pre.ref[inp.reg] ELSE 0 IN
+  /\ \A i \in 1..Len(pre.heap) : i # tgt => heap[i] = pre.heap[i]
+  /\ \A x \in Regs : x # inp.reg => /\ ref[x] = pre.ref[x]
+                                    /\ DenoteIn(RepAt(ref, heap, x), Wide) = DenoteIn(RepAt(pre.ref, pre.heap, x), Wide)
 \* the end-point test used by is_disjoint decides emptiness of the intersection, both ways round
-DisjointCorrect == /\ RepDisjoint(rep["A"], rep["B"]) = DenDisjoint(den["A"], den["B"])
-                   /\ RepDisjoint(rep["B"], rep["A"]) = DenDisjoint(den["A"], den["B"])
-Canonical == \A x \in Regs : RepCanonical(rep[x])
-\* vacuity guards (negated in the cfg of a separate run they would be reachable; here: sanity)
-View == <<pre, inp, rep, den>>
+DisjointCorrect == /\ RepDisjoint(RepAt(ref, heap, "A"), RepAt(ref, heap, "B")) = DenDisjoint(den["A"], den["B"])
+                   /\ RepDisjoint(RepAt(ref, heap, "B"), RepAt(ref, heap, "A")) = DenDisjoint(den["A"], den["B"])
+Canonical == \A x \in Regs : RepCanonical(RepAt(ref, heap, x))
+
+\* VIEW: object ids are abstracted to "what each variable names (contents and origin) and which
+\* variables name the same object"; garbage is invisible
+Shape(rf, hp) == <<[x \in Regs |-> hp[rf[x]]], {<<x, y>> \in Regs \X Regs : rf[x] = rf[y]}>>
+View == <<Shape(pre.ref, pre.heap), inp, Shape(ref, heap), den>>
 =============================================================================
